@@ -79,6 +79,61 @@ def in_domain(src, tgt, v) -> bool:
     return True
 
 
+def const_invariance_stream():
+    """a cast is compiled the same way for a constant operand and for a column operand: on every dialect the SQL text of
+    `lit(v).cast(T)` is the text of `col.cast(T)` with the column reference replaced by the literal's own rendering
+    (dialect overrides of compile_cast dispatch on the operand type; a constant operand has type `const T`)"""
+    import datetime as dt
+    import re
+
+    import pydiverse.transform as pdt
+
+    from . import dialects
+
+    cols = [("i", "int64", pdt.Int64(), 3), ("f", "float64", pdt.Float64(), 1.5), ("s", "string", pdt.String(), "12"), ("b", "bool", pdt.Bool(), True),
+            ("d", "date", pdt.Date(), dt.date(2020, 2, 29)), ("t", "datetime", pdt.Datetime(), dt.datetime(2020, 2, 29, 12, 30, 1))]
+    targets = [pdt.Int64(), pdt.Int32(), pdt.Float64(), pdt.String(), pdt.Bool(), pdt.Date(), pdt.Datetime()]
+    diffs, n = [], 0
+
+    def y_expr(q):
+        m = re.search(r"SELECT\s+(.*?)\s+AS\s+y\s+FROM", " ".join(str(q).split()), re.S | re.I)
+        return m.group(1) if m else None
+
+    for d in ("sqlite", "postgres", "mssql"):
+        eng = dialects.engine(d)
+        for cn, dtn, cty, v in cols:
+            st = dialects.sqa_table("cst", [("k", "int64"), (cn, dtn)])
+            t = pdt.Table(st, pdt.SqlAlchemy(eng))
+            try:
+                ref_text = y_expr(t >> pdt.mutate(y=t[cn]) >> pdt.select(pdt.C.y) >> pdt.build_query())
+                lit_text = y_expr(t >> pdt.mutate(y=pdt.lit(v)) >> pdt.select(pdt.C.y) >> pdt.build_query())
+            except Exception:  # noqa: BLE001
+                continue
+            if not ref_text or not lit_text:
+                continue
+            for tgt in targets:
+                try:
+                    ec, el = t[cn].cast(tgt), pdt.lit(v).cast(tgt)
+                except Exception:  # noqa: BLE001
+                    continue                      # not an accepted cast (acceptance is checked elsewhere)
+                outs = []
+                for e in (ec, el):
+                    try:
+                        outs.append(("ok", y_expr(t >> pdt.mutate(y=e) >> pdt.select(pdt.C.y) >> pdt.build_query())))
+                    except Exception as ex:  # noqa: BLE001
+                        outs.append(("error", type(ex).__name__))
+                n += 1
+                (kc, xc), (kl, xl) = outs
+                if kc != kl:
+                    if not (kc == "error" and xc == "NotSupportedError") and not (kl == "error" and xl == "NotSupportedError"):
+                        diffs.append(dict(kind="cast_const_vs_column_outcome", src=f"{d}:{cty}", tgt=str(tgt), column=outs[0], constant=outs[1]))
+                    continue
+                norm = lambda text, operand: re.sub(r"(?<![\w.])" + re.escape(operand) + r"(?![\w.])", "<X>", text)  # noqa: E731
+                if kc == "ok" and xc and xl and norm(xc, ref_text) != norm(xl, lit_text):
+                    diffs.append(dict(kind="cast_compiled_differently_for_constant", src=f"{d}:{cty}", tgt=str(tgt), column=xc, constant=xl))
+    return diffs, n
+
+
 def representation_stream():
     """the same values stored in different physical representations give the same cast results"""
     import datetime as dt
@@ -226,6 +281,9 @@ def run(tier: str, seed: int) -> int:
     #      frame stores the value (Datetime in ms / us / ns, sized ints and floats), and agrees with SQLite
     repr_diffs, n_repr = representation_stream()
     diffs += repr_diffs
+    ci_diffs, n_ci = const_invariance_stream()
+    diffs += ci_diffs
+    n_repr += n_ci
     new = internal + diffs + acc_viol
     groups = {}
     for d in new:
